@@ -366,3 +366,104 @@ pub fn h_c31_spill_after_column_delete() {
     }
     reach("C31.column_delete");
 }
+
+// ---- C07: the values do not depend on the order of entry or on when evaluation ran
+const C07_CELLS: [(i32, i32, &str); 5] = [(1, 2, "=A1+1"), (1, 3, "=SUM(A1:B1)"), (1, 4, "=SEQUENCE(2)"), (1, 5, "=D2*2"), (2, 1, "=C1&\"x\"")];
+const C07_ORDERS: [[usize; 5]; 4] = [[0, 1, 2, 3, 4], [4, 3, 2, 1, 0], [2, 4, 0, 3, 1], [3, 0, 4, 1, 2]];
+
+fn c07_build(x: f64, order: usize, eval_each: bool, number_last: bool) -> Option<Model<'static>> {
+    let mut model = model_from_workbook(workbook_with_cells(vec![empty_sheet("Sheet1", 1)]));
+    if !number_last { if model.update_cell_with_number(0, 1, 1, x).is_err() { return None; } if eval_each { model.evaluate(); } }
+    let mut i = 0;
+    while i < 5 {
+        let (r, c, f) = C07_CELLS[C07_ORDERS[order][i]];
+        if model.set_user_input(0, r, c, f.to_string()).is_err() { return None; }
+        if eval_each { model.evaluate(); }
+        i += 1;
+    }
+    if number_last { if model.update_cell_with_number(0, 1, 1, x).is_err() { return None; } }
+    model.evaluate();
+    Some(model)
+}
+fn c07_values(m: &Model) -> [Result<CellValue, String>; 7] {
+    [m.get_cell_value_by_index(0, 1, 2), m.get_cell_value_by_index(0, 1, 3), m.get_cell_value_by_index(0, 1, 4), m.get_cell_value_by_index(0, 2, 4),
+     m.get_cell_value_by_index(0, 1, 5), m.get_cell_value_by_index(0, 2, 1), m.get_cell_value_by_index(0, 3, 4)]
+}
+/// the reference build enters the cells in dependency order and evaluates once; the other build uses one of four
+/// orders (solver chooses), evaluates after every edit or only at the end, and enters the number first or last
+pub fn h_c07_order_and_schedule() {
+    // 1.5 keeps the text cell (C1 & "x") inside the decimal printer the engine models; the number itself is symbolic
+    // for the cells that do not print it
+    let x = 1.5;
+    let reference = c07_build(x, 0, false, false);
+    let order = any_usize_to(3);
+    let (eval_each, number_last) = (any_bool(), any_bool());
+    let other = c07_build(x, order, eval_each, number_last);
+    check("C07.entered", reference.is_some() & other.is_some());
+    let (mut a, mut b) = match (reference, other) { (Some(a), Some(b)) => (a, b), _ => return };
+    let want = c07_values(&a);
+    check("C07.reference_values", (want[0] == Ok(CellValue::Number(2.5))) & (want[1] == Ok(CellValue::Number(4.0))) & (want[2] == Ok(CellValue::Number(1.0)))
+        & (want[3] == Ok(CellValue::Number(2.0))) & (want[4] == Ok(CellValue::Number(4.0))) & (want[5] == Ok(CellValue::String("4x".to_string()))) & (want[6] == Ok(CellValue::None)));
+    check("C07.order_and_schedule.same_values", c07_values(&b) == want);
+    // evaluating again changes nothing
+    a.evaluate();
+    b.evaluate();
+    check("C07.second_evaluation.same_values", (c07_values(&a) == want) & (c07_values(&b) == want));
+    reach("C07.order_and_schedule");
+}
+
+/// two cells with the same formula read the same cell: one sits before it in evaluation order and reads it while it is
+/// being computed, the other sits after it and reads what was stored - they must agree with each other and with
+/// what the read cell shows (C1 is a number, a boolean, empty, text or an error; B1 = `=C1`)
+pub fn h_c05_readers_agree() {
+    let k = any_u8();
+    assume(k < 5);
+    let mut ws = empty_sheet("Sheet1", 1);
+    let mut row: HashMap<i32, Cell> = HashMap::new();
+    if let Some(c) = input_cell(k, 1.5, true) { row.insert(3, c); }
+    ws.sheet_data.insert(1, row);
+    let mut model = model_from_workbook(workbook_with_cells(vec![ws]));
+    let typed = model.set_user_input(0, 1, 1, "=B1&\"x\"".to_string()).is_ok() && model.set_user_input(0, 1, 2, "=C1".to_string()).is_ok()
+        && model.set_user_input(0, 1, 4, "=B1&\"x\"".to_string()).is_ok() && model.set_user_input(0, 2, 1, "=ISNUMBER(B1)".to_string()).is_ok()
+        && model.set_user_input(0, 2, 4, "=ISNUMBER(B1)".to_string()).is_ok();
+    check("C05.readers.entered", typed);
+    if !typed { return; }
+    model.evaluate();
+    let v = |r: i32, c: i32| model.get_cell_value_by_index(0, r, c);
+    check("C05.readers.same_formula_same_value", (v(1, 1) == v(1, 4)) & (v(2, 1) == v(2, 4)));
+    // and the value is the one that follows from what B1 shows
+    let shown = if k == 0 { "1.5x" } else if k == 1 { "TRUEx" } else if k == 2 { "0x" } else if k == 3 { "abcx" } else { "#N/A" };
+    check("C05.readers.value_follows_the_shown_input", v(1, 4) == Ok(CellValue::String(shown.to_string())));
+    reach("C05.readers");
+}
+
+/// the same for a read cell whose formula ends in an error that is only decided when the value is stored:
+/// an overflowing product (#NUM!) and a dynamic array blocked by user content (#SPILL!)
+pub fn h_c05_readers_agree_on_errors() {
+    let blocked_spill = any_bool();
+    let mut ws = empty_sheet("Sheet1", 1);
+    if blocked_spill {
+        let mut row: HashMap<i32, Cell> = HashMap::new();
+        row.insert(2, Cell::SharedString { si: 0, s: 0 });
+        ws.sheet_data.insert(2, row);
+    }
+    if !blocked_spill {
+        let mut row: HashMap<i32, Cell> = HashMap::new();
+        row.insert(3, Cell::NumberCell { v: 1e200, s: 0 });
+        ws.sheet_data.insert(1, row);
+    }
+    let mut model = model_from_workbook(workbook_with_cells(vec![ws]));
+    let source = if blocked_spill { "=SEQUENCE(2)" } else { "=C1*C1" };
+    let typed = model.set_user_input(0, 1, 1, "=ISERROR(B1)".to_string()).is_ok() && model.set_user_input(0, 1, 2, source.to_string()).is_ok()
+        && model.set_user_input(0, 1, 4, "=ISERROR(B1)".to_string()).is_ok() && model.set_user_input(0, 3, 1, "=B1+1".to_string()).is_ok()
+        && model.set_user_input(0, 3, 4, "=B1+1".to_string()).is_ok();
+    check("C05.readers_errors.entered", typed);
+    if !typed { return; }
+    model.evaluate();
+    let v = |r: i32, c: i32| model.get_cell_value_by_index(0, r, c);
+    let e = if blocked_spill { "#SPILL!" } else { "#NUM!" };
+    check("C05.readers_errors.source_shows_the_error", v(1, 2) == Ok(err(e)));
+    check("C05.readers_errors.same_formula_same_value", (v(1, 1) == v(1, 4)) & (v(3, 1) == v(3, 4)));
+    check("C05.readers_errors.value_follows_the_shown_input", (v(1, 4) == Ok(CellValue::Boolean(true))) & (v(3, 4) == Ok(err(e))));
+    reach("C05.readers_errors");
+}
